@@ -25,6 +25,7 @@ type Clause struct {
 type LoopSpec struct {
 	Invariants []*Clause
 	Steps      []*Clause
+	Exits      []*Clause // checked on every edge that leaves the loop
 	Decreases  *Clause
 	Frame      []*Clause // loop n preserves <heap-facts> (quantified frame facts, proved at back edge)
 	Unroll     int
@@ -55,6 +56,7 @@ type FuncSpec struct {
 	Trusted  bool // body not verified; contract assumed (listed in evidence)
 	Requires []*Clause
 	Ensures  []*Clause
+	RetSites []*Clause // "returns": like ensures, but evaluated at each return statement with the locals visible there
 	Loops    map[int]*LoopSpec
 	Lets     map[string]CExpr
 	LetOrder []string
@@ -79,6 +81,7 @@ type Specs struct {
 	Funcs map[string]*FuncSpec // key: pkgpath + "." + name
 	Pures map[string]*PureFn   // key: pkgpath + "." + name ; also "" + name for global
 	Types map[string][]*TypeInv
+	NonNil map[string]bool // "pkgpath.Type.field": the field never holds nil (checked at every store, assumed at every load)
 	Files []string
 }
 
@@ -86,7 +89,7 @@ var labelRe = regexp.MustCompile(`^\[([A-Za-z0-9_.\-,]+)\]\s*`)
 var pureRe = regexp.MustCompile(`^pure\s+([A-Za-z_][A-Za-z0-9_]*)\s*\(([^)]*)\)\s*([^=]*?)\s*=\s*(.*)$`)
 
 var clauseKeywords = map[string]bool{"requires": true, "ensures": true, "loop": true, "mode": true, "inline": true,
-	"modular": true, "modifies": true, "decreases": true, "let": true, "end": true, "func": true, "pure": true,
+	"modular": true, "modifies": true, "decreases": true, "let": true, "end": true, "func": true, "returns": true, "pure": true,
 	"type": true, "props": true, "bounded": true, "trusted": true, "purefn": true, "package": true, "skip": true}
 
 // extractSpecLines pulls the //@ lines out of a Go file (or takes every
@@ -201,6 +204,13 @@ func (sp *Specs) parseFile(path string, data []byte, pkgPath string) error {
 			pf.Body = e
 			sp.Pures[pkgPath+"."+pf.Name] = pf
 		case "type":
+			// type T nonnil f1 f2 ...
+			if len(w) >= 4 && w[2] == "nonnil" {
+				for _, f := range w[3:] {
+					sp.NonNil[pkgPath+"."+w[1]+"."+strings.TrimSuffix(f, ",")] = true
+				}
+				break
+			}
 			// type T invariant [label] expr   (receiver variable is "self")
 			if len(w) < 4 || w[2] != "invariant" {
 				return fmt.Errorf("%s:%d: bad type invariant", path, line)
@@ -266,6 +276,12 @@ func (sp *Specs) parseFile(path string, data []byte, pkgPath string) error {
 				n := strings.TrimSpace(parts[0])
 				cur.Lets[n] = e
 				cur.LetOrder = append(cur.LetOrder, n)
+			case "returns":
+				c, err := mkClause(rest, line)
+				if err != nil {
+					return err
+				}
+				cur.RetSites = append(cur.RetSites, c)
 			case "requires", "ensures", "decreases":
 				c, err := mkClause(rest, line)
 				if err != nil {
@@ -331,6 +347,8 @@ func (sp *Specs) parseFile(path string, data []byte, pkgPath string) error {
 					ls.Invariants = append(ls.Invariants, c)
 				case "step":
 					ls.Steps = append(ls.Steps, c)
+				case "exit":
+					ls.Exits = append(ls.Exits, c)
 				case "decreases":
 					ls.Decreases = c
 				case "preserves":
@@ -351,7 +369,7 @@ func (sp *Specs) parseFile(path string, data []byte, pkgPath string) error {
 }
 
 func newSpecs() *Specs {
-	return &Specs{Funcs: map[string]*FuncSpec{}, Pures: map[string]*PureFn{}, Types: map[string][]*TypeInv{}}
+	return &Specs{Funcs: map[string]*FuncSpec{}, Pures: map[string]*PureFn{}, Types: map[string][]*TypeInv{}, NonNil: map[string]bool{}}
 }
 
 func (sp *Specs) loadFile(path, pkgPath string) error {
